@@ -1,7 +1,224 @@
-(* placeholder while the proofs are being written *)
+(* Property C05: L2CAP PDUs of any size cross the ACL link intact for any buffer geometry.
+   Statements only, each closed by [exact]; the model is Model/Acl.v (hand-written, tied to
+   bumble by tools/harness/c05.py), the proofs are in Proofs/Acl.v. *)
 From Coq Require Import ZArith List Bool.
-From BV Require Import Model.Acl.
+From BV Require Import Model.Acl Model.DataQueue Proofs.DataQueue Proofs.Acl.
 Import ListNotations.
 Open Scope Z_scope.
-Example C05_placeholder : deliveries (snd (asm_run asm_init [mkAcl 1 0 0 5 [1;0;4;0;9]])) = [[1;0;4;0;9]].
+
+(* ---- fragmentation (Host.send_acl_sdu towards the controller with first marker 0,
+        Controller.on_link_acl_data towards the host with first marker 2) ----
+   For every fragment size m >= 1 and every SDU of any length: the fragmenter succeeds; the
+   fragments concatenate to the SDU; each has the connection handle, bc 0, data_total_length =
+   its size, 1 <= size <= m; the first carries the start marker, all others 1; every fragment
+   but the last is exactly m bytes; no packet at all iff the SDU is empty. *)
+Theorem C05_fragments_fit_and_flagged : forall h pb m sdu, 1 <= m ->
+  exists ps, fragment h pb m sdu = Some ps /\
+             concat (map a_data ps) = sdu /\
+             Forall (frag_ok h m) ps /\ flags_ok pb ps /\
+             full_but_last (Z.to_nat m) (map a_data ps) /\
+             (ps = [] <-> sdu = []).
+Proof. exact fragment_spec. Qed.
+Print Assumptions C05_fragments_fit_and_flagged.
+
+(* ---- reassembly, RESYNC ----
+   From EVERY assembler state (whatever preceded), the fragments of a well-formed PDU cut by
+   any m >= 2, with either start marker, deliver exactly that PDU, once, and leave the
+   assembler in its initial state. *)
+Theorem C05_reassembly_from_any_state : forall s h pb m pdu ps,
+  2 <= m -> pb = 0 \/ pb = 2 -> pdu_wf pdu ->
+  fragment h pb m pdu = Some ps ->
+  asm_run s ps = (asm_init, [Deliver pdu]).
+Proof. exact asm_fragment. Qed.
+Print Assumptions C05_reassembly_from_any_state.
+
+(* ... also with an arbitrary packet sequence in front: its effects come first, untouched *)
+Theorem C05_resync_after_garbage : forall s junk h pb m pdu ps,
+  2 <= m -> pb = 0 \/ pb = 2 -> pdu_wf pdu -> fragment h pb m pdu = Some ps ->
+  asm_run s (junk ++ ps) = (asm_init, snd (asm_run s junk) ++ [Deliver pdu]).
+Proof. exact asm_resync. Qed.
+Print Assumptions C05_resync_after_garbage.
+
+(* The guard m >= 2 is needed: a 1-byte start fragment cannot carry the length field. *)
+Theorem C05_reassembly_m1_refuted :
+  exists pdu ps, pdu_wf pdu /\ fragment 1 0 1 pdu = Some ps /\
+                 deliveries (snd (asm_run asm_init ps)) = [].
+Proof. exact asm_fragment_m1_refuted. Qed.
+Print Assumptions C05_reassembly_m1_refuted.
+
+(* ---- streams: arbitrary packets, then a well-formed PDU, repeated ----
+   Every well-formed PDU is delivered once, in order; what a malformed sequence causes is a
+   function of that sequence alone, evaluated from the INITIAL state (for all but the first):
+   it costs at most itself and can never corrupt a neighbour. *)
+Theorem C05_stream_with_malformed_sequences : forall items s, Forall item_wf items ->
+  deliveries (snd (asm_run s (flat_map item_packets items))) = stream_spec s items /\
+  (items <> [] -> fst (asm_run s (flat_map item_packets items)) = asm_init).
+Proof. exact asm_stream. Qed.
+Print Assumptions C05_stream_with_malformed_sequences.
+
+(* sequences of well-formed PDUs compose *)
+Theorem C05_sequences_compose : forall h pb m pdus s,
+  2 <= m -> pb = 0 \/ pb = 2 -> Forall pdu_wf pdus ->
+  deliveries (snd (asm_run s (flat_map item_packets (map (clean h pb m) pdus)))) = pdus.
+Proof. exact asm_sequence. Qed.
+Print Assumptions C05_sequences_compose.
+
+(* ---- the malformed sequences named by the property ---- *)
+(* continuation without start: ignored *)
+Theorem C05_continuation_without_start : forall ps l, Forall (fun p => a_pb p = 1) ps ->
+  asm_run (None, l) ps = ((None, l), map (fun _ => ContNoStart) ps).
+Proof. exact conts_without_start. Qed.
+Print Assumptions C05_continuation_without_start.
+
+(* a PDU whose start fragment was lost costs that PDU only *)
+Theorem C05_lost_start : forall h pb m pdu p ps,
+  1 <= m -> fragment h pb m pdu = Some (p :: ps) ->
+  asm_run asm_init ps = (asm_init, map (fun _ => ContNoStart) ps).
+Proof. exact lost_start. Qed.
+Print Assumptions C05_lost_start.
+
+(* data beyond the announced length: that PDU is dropped, the state is reset, trailing
+   continuation fragments are ignored *)
+Theorem C05_overflow_costs_one_pdu : forall s h pb b0 b1 rest r more,
+  pb = 0 \/ pb = 2 ->
+  let c0 := b0 :: b1 :: rest in
+  (r <> [] -> blen (c0 ++ concat (removelast r)) < rd16 b0 b1 + 4) ->
+  blen (c0 ++ concat r) > rd16 b0 b1 + 4 ->
+  Forall (fun p => a_pb p = 1) more ->
+  asm_run s (start h pb c0 :: map (cont h) r ++ more) =
+  (asm_init, Overflow :: map (fun _ => ContNoStart) more).
+Proof. exact overflow_costs_one_pdu. Qed.
+Print Assumptions C05_overflow_costs_one_pdu.
+
+(* a truncated PDU is dropped by the next start fragment; the next PDU is intact *)
+Theorem C05_truncated_then_next : forall s h pb b0 b1 rest r h' pb' m pdu ps,
+  pb = 0 \/ pb = 2 ->
+  let c0 := b0 :: b1 :: rest in
+  blen (c0 ++ concat r) < rd16 b0 b1 + 4 ->
+  2 <= m -> pb' = 0 \/ pb' = 2 -> pdu_wf pdu -> fragment h' pb' m pdu = Some ps ->
+  asm_run s ((start h pb c0 :: map (cont h) r) ++ ps) = (asm_init, [Deliver pdu]).
+Proof. exact truncated_then_next. Qed.
+Print Assumptions C05_truncated_then_next.
+
+(* a delivery or an overflow always leaves the initial state (no stale data survives) *)
+Theorem C05_delivery_resets : forall s p s' o,
+  feed s p = (s', o) -> (exists d, In (Deliver d) o) \/ In Overflow o -> s' = asm_init.
+Proof. exact feed_resets. Qed.
+Print Assumptions C05_delivery_resets.
+
+(* ---- codecs on the path ---- *)
+Theorem C05_l2cap_header_roundtrip : forall cid payload b,
+  l2cap_to_bytes cid payload = Some b ->
+  l2cap_from_bytes b = Some (cid, payload) /\ pdu_wf b /\ blen b = blen payload + 4.
+Proof. exact l2cap_roundtrip. Qed.
+Print Assumptions C05_l2cap_header_roundtrip.
+
+Theorem C05_l2cap_sendable : forall cid payload,
+  blen payload <= 65535 -> 0 <= cid <= 65535 -> exists b, l2cap_to_bytes cid payload = Some b.
+Proof. exact l2cap_to_bytes_some. Qed.
+Print Assumptions C05_l2cap_sendable.
+
+Theorem C05_l2cap_fcs_roundtrip : forall cid payload b,
+  l2cap_to_bytes_fcs cid payload = Some b ->
+  exists f0 f1, l2cap_from_bytes b = Some (cid, payload ++ [f0; f1]) /\ pdu_wf b /\
+                [f0; f1] = le16 (crc16 (le16 (blen payload + 2) ++ le16 cid ++ payload)).
+Proof. exact l2cap_fcs_roundtrip. Qed.
+Print Assumptions C05_l2cap_fcs_roundtrip.
+
+(* HCI ACL header bit fields (handle 12 bits, pb 2 bits, bc 2 bits, length 16 bits) *)
+Theorem C05_acl_header_roundtrip : forall p, acl_ok p ->
+  exists b, acl_to_bytes p = Some b /\ acl_from_bytes b = Some p.
+Proof. exact acl_wire_roundtrip. Qed.
+Print Assumptions C05_acl_header_roundtrip.
+
+(* ---- end to end: host A -> controller A -> link -> controller B -> host B ----
+   For all handles, all fragment sizes 2..65535 on either side, every list of PDUs with
+   0..65535 payload bytes: the peer's L2CAP layer sees exactly the PDUs sent, once, in order. *)
+Theorem C05_relay_intact : forall hA mA hB mB pdus,
+  0 <= hA < 4096 -> 0 <= hB < 4096 -> 2 <= mA <= 65535 -> 2 <= mB <= 65535 ->
+  Forall sendable pdus ->
+  relay hA mA hB mB pdus = Some pdus.
+Proof. exact relay_intact. Qed.
+Print Assumptions C05_relay_intact.
+
+(* ... and every fragment on either HCI link fits, with the right markers *)
+Theorem C05_relay_fragments_fit : forall h pb m pdu, 1 <= m ->
+  Forall (frag_ok h m) (frags h pb m pdu) /\ flags_ok pb (frags h pb m pdu) /\
+  concat (map a_data (frags h pb m pdu)) = pdu.
+Proof. exact relay_fragments_fit. Qed.
+Print Assumptions C05_relay_fragments_fit.
+
+(* the relay as it was before fix D05 (one ACL packet per PDU towards the host) loses a
+   65532-byte PDU: struct.pack cannot encode data_total_length 65536 *)
+Theorem C05_relay_unfragmented_refuted :
+  relay_unfragmented 1 1021 2 [(62, pattern (Z.to_nat 65532) 7 1); (62, [1; 2; 3])] = Some [(62, [1; 2; 3])].
+Proof. exact relay_unfragmented_refuted. Qed.
+Print Assumptions C05_relay_unfragmented_refuted.
+
+(* composition with the DataPacketQueue (C04): whatever else the queue does, once nothing of
+   the connection is waiting, the controller was handed exactly the fragment list *)
+Theorem C05_queue_hands_over_fragments : forall maxf ops h (pk : list acl) d,
+  enqueued h ops = map (fun i => (Z.of_nat i, h)) (seq 0 (length pk)) ->
+  flushes h ops = false ->
+  filter (is_handle h) (q_wait (fst (q_run (q_init maxf) ops))) = [] ->
+  map (fun ph => nth (Z.to_nat (fst ph)) pk d) (filter (is_handle h) (snd (q_run (q_init maxf) ops))) = pk.
+Proof. exact queue_hands_over_fragments. Qed.
+Print Assumptions C05_queue_hands_over_fragments.
+
+(* ---- isochronous SDUs ----
+   For every ISO data packet length > 4 and every SDU: fragments concatenate to the SDU, each
+   is non-empty with data_total_length <= max; markers 10 (single) or 00 01* 11; sequence
+   number and SDU length on the first fragment only; the counter advances modulo 2^16. *)
+Theorem C05_iso_sdu_fragments : forall h maxp seq sdu, 4 < maxp -> 0 <= seq ->
+  exists ps, send_iso_sdu h maxp seq sdu = (Some ps, (seq + 1) mod 65536) /\
+             concat (map i_frag ps) = sdu /\
+             Forall (fun p => i_handle p = h /\ 1 <= blen (i_frag p) /\ 0 <= i_len p <= maxp) ps /\
+             iso_shape true seq (blen sdu) ps.
+Proof. exact send_iso_sdu_spec. Qed.
+Print Assumptions C05_iso_sdu_fragments.
+
+Theorem C05_iso_sequence_numbers : forall h maxp, 4 < maxp -> forall sdus seq, 0 <= seq < 65536 ->
+  iso_seq_spec h maxp seq sdus (fst (send_iso_sdus h maxp seq sdus)) /\
+  snd (send_iso_sdus h maxp seq sdus) = (seq + Z.of_nat (length sdus)) mod 65536.
+Proof. exact send_iso_sdus_spec. Qed.
+Print Assumptions C05_iso_sequence_numbers.
+
+Theorem C05_iso_wire_roundtrip : forall p, iso_first_ok p \/ iso_cont_ok p ->
+  exists b, iso_to_bytes p = Some b /\ iso_from_bytes b = Some p.
+Proof. exact iso_wire_roundtrip. Qed.
+Print Assumptions C05_iso_wire_roundtrip.
+
+(* the guard "SDU length < 2^12" of the wire round trip is needed *)
+Theorem C05_iso_sdu_length_4096_refuted :
+  exists p b, iso_to_bytes p = Some b /\ i_sdu_len p = Some 4096 /\
+              option_map i_sdu_len (iso_from_bytes b) = Some (Some 0).
+Proof. exact iso_sdu_length_4096_refuted. Qed.
+Print Assumptions C05_iso_sdu_length_4096_refuted.
+
+(* ---- non-vacuity ---- *)
+Example C05_example_relay :
+  relay 1 2 2 3 [(4, [10; 20; 30; 40; 50]); (5, []); (62, [7])] = Some [(4, [10; 20; 30; 40; 50]); (5, []); (62, [7])].
 Proof. vm_compute. reflexivity. Qed.
+
+Example C05_example_wf :
+  Forall sendable [(4, [10; 20; 30; 40; 50]); (5, []); (62, [7])] /\ pdu_wf [1; 0; 4; 0; 9] /\
+  item_wf (mkItem [mkAcl 1 1 0 2 [1; 2]] 1 0 2 [1; 0; 4; 0; 9]).
+Proof.
+  split; [|split].
+  - repeat constructor; cbn; unfold blen; cbn; try discriminate.
+  - reflexivity.
+  - unfold item_wf. cbn. split; [discriminate|]. split; [left; reflexivity|reflexivity].
+Qed.
+
+Example C05_example_overflow :
+  asm_run asm_init [mkAcl 1 0 0 5 [1; 0; 4; 0; 9]; mkAcl 1 0 0 4 [2; 0; 4; 0]; mkAcl 1 1 0 3 [1; 2; 3];
+                    mkAcl 1 1 0 1 [9]; mkAcl 1 0 0 5 [1; 0; 4; 0; 8]]
+  = (asm_init, [Deliver [1; 0; 4; 0; 9]; Overflow; ContNoStart; Deliver [1; 0; 4; 0; 8]]).
+Proof. vm_compute. reflexivity. Qed.
+
+Example C05_example_iso :
+  fst (send_iso_sdu 5 6 65535 [1; 2; 3; 4; 5]) =
+  Some [mkIso 5 0 6 None (Some 65535) (Some 5) (Some 0) [1; 2];
+        mkIso 5 3 3 None None None None [3; 4; 5]] /\
+  snd (send_iso_sdu 5 6 65535 [1; 2; 3; 4; 5]) = 0.
+Proof. vm_compute. split; reflexivity. Qed.
